@@ -177,3 +177,86 @@ theorem runSteps_rets (w : W) (steps : List Step) :
     · exact ih _ x h
 
 end ZapVerif.Zio
+
+namespace ZapVerif.Zio
+
+/-! ### the full specification, level changes included -/
+
+/-- events of a session when the level may change under the writer -/
+inductive EvT where
+  | byte (b : UInt8)
+  | mark
+  | toggle (on : Bool)
+
+def eventsT : List Step → List EvT
+  | [] => []
+  | .write bs :: r => bs.map EvT.byte ++ eventsT r
+  | .sync :: r => EvT.mark :: eventsT r
+  | .enable on :: r => EvT.toggle on :: eventsT r
+
+/-- messages of an event stream: bytes arriving while the level is disabled are not part of the stream at all;
+    a mark ends the current line (logged iff non-empty and the level is enabled at that moment) -/
+def specT (en : Bool) (cur : Bytes) : List EvT → List Bytes × (Bytes × Bool)
+  | [] => ([], (cur, en))
+  | .byte b :: r =>
+    if en then
+      if b = 10 then let p := specT en [] r; (cur :: p.1, p.2) else specT en (cur ++ [b]) r
+    else specT en cur r
+  | .mark :: r =>
+    let p := specT en [] r
+    ((if en && !cur.isEmpty then [cur] else []) ++ p.1, p.2)
+  | .toggle on :: r => specT on cur r
+
+theorem specT_bytes_enabled (cur bs : Bytes) (r : List EvT) :
+    specT true cur (bs.map EvT.byte ++ r) =
+      ((lines cur bs).1 ++ (specT true (lines cur bs).2 r).1, (specT true (lines cur bs).2 r).2) := by
+  induction bs generalizing cur with
+  | nil => simp [lines]
+  | cons x t ih =>
+    simp only [List.map_cons, List.cons_append]
+    by_cases hx : x = 10
+    · subst hx; simp only [specT, if_true]; rw [ih, lines_nl]; simp
+    · simp only [specT, if_true, hx, if_false]; rw [ih, lines_other _ _ _ hx]
+
+theorem specT_bytes_disabled (cur bs : Bytes) (r : List EvT) :
+    specT false cur (bs.map EvT.byte ++ r) = specT false cur r := by
+  induction bs with
+  | nil => simp
+  | cons x t ih => simp only [List.map_cons, List.cons_append, specT]; simpa using ih
+
+/-- the step machine computes the specification, whatever the sequence of Writes, Syncs and level changes -/
+theorem runSteps_eq_specT (w : W) (steps : List Step) :
+    (runSteps w steps).2.1 = (specT w.enabled w.buff (eventsT steps)).1 ∧
+    ((runSteps w steps).1.buff, (runSteps w steps).1.enabled) = (specT w.enabled w.buff (eventsT steps)).2 := by
+  induction steps generalizing w with
+  | nil => simp [runSteps, eventsT, specT]
+  | cons s r ih =>
+    obtain ⟨buff, en⟩ := w
+    cases s with
+    | write bs =>
+      cases en with
+      | true =>
+        simp only [runSteps, step, eventsT, write, if_true]
+        rw [feed_eq_lines _ _ _ (Nat.lt_succ_self _), specT_bytes_enabled]
+        have := ih ⟨(lines buff bs).2, true⟩
+        exact ⟨by rw [this.1], this.2⟩
+      | false =>
+        simp only [runSteps, step, eventsT, Bool.false_eq_true, if_false]
+        rw [specT_bytes_disabled]
+        simpa using ih ⟨buff, false⟩
+    | sync =>
+      simp only [runSteps, step, eventsT, sync, specT]
+      have := ih ⟨[], en⟩
+      constructor
+      · rw [this.1]; cases en <;> cases hb : buff.isEmpty <;> simp [hb]
+      · exact this.2
+    | enable on =>
+      simp only [runSteps, step, eventsT, specT]
+      simpa using ih ⟨buff, on⟩
+
+theorem eventsT_append (a b : List Step) : eventsT (a ++ b) = eventsT a ++ eventsT b := by
+  induction a with
+  | nil => simp [eventsT]
+  | cons s r ih => cases s <;> simp [eventsT, ih]
+
+end ZapVerif.Zio
